@@ -491,7 +491,8 @@ func (e *engine) Close() (err error) {
 	defer e.mux.Unlock()
 	e.sortedCompiledModules = nil
 	e.compiledModules = nil
-	e.sharedFunctions = nil
+	// Note: sharedFunctions is intentionally kept as compilations racing with Close read it
+	// without the lock, and already compiled modules refer to it. It is released by its finalizer.
 	return nil
 }
 
